@@ -933,6 +933,8 @@ PC_IADD_FORCED = [
     ('complex128', 'complex128', -1.0, 'shallow-extend', None, None, (1.0, 1.0)), ('float64', 'float64', 3, 'shallow-extend', None, None, (1.0, 1.0)),
     ('float64', 'complex128', 0.0, 'none', None, None, (0.6, 0.6)), ('float64', 'float64', ['n', 'bool', 1, 0], 'none', 'asfortran', None, (0.6, 0.6)),
     ('float64', 'float64', 1.0, 'shallow', 'asfortran', None, (1.0, 1.0)), ('complex128', 'float64', ['c', 0.0, 2.0], 'shallow', 'F', None, (1.0, 1.0)),
+    ('complex128', 'complex128', ['c', 0.0, 1.0], 'shallow', None, None, (1.0, 1.0)), ('complex128', 'complex128', ['c', 0.5, 2.0], 'shallow-extend', None, None, (1.0, 1.0)),
+    ('float64', 'float64', -1.5, 'shallow', None, None, (1.0, 1.0)),
 ]
 
 
@@ -1106,9 +1108,9 @@ def pc_combine_split(rng, dtype, rank, how, relayout, nested, fill=None, one_gro
 
 
 def pc_iadd(rng, dtype_a, dtype_b, pref, alias, lay_a, lay_b, fills, err=None):
-    p = _pc_prog(rng, nq=rng.choice([0, 1, 1, 2]), sizes=(1, 2, 2, 3))
+    p = _pc_prog(rng, nq=rng.choice([0, 1, 1, 2]), sizes=(2, 2, 3) if (lay_a or lay_b) else (1, 2, 2, 3))
     p.allow_alias_writes = True
-    rank = rng.choice([1, 2, 2, 3])
+    rank = rng.choice([1, 2, 2, 3]) if not (lay_a or lay_b) else rng.choice([2, 2, 3])
     types = [['L', rng.randrange(len(p.pool)), rng.choice([1, -1])] for _ in range(rank)]
     labels = rng.sample(LABELS[:8], rank)
     if alias == 'views':
@@ -1196,8 +1198,8 @@ def pc_iadd(rng, dtype_a, dtype_b, pref, alias, lay_a, lay_b, fills, err=None):
 
 
 def pc_iscale(rng, dtype, pref, lay, fill, op=None):
-    p = _pc_prog(rng, nq=rng.choice([0, 1, 2]), sizes=(1, 2, 2, 3))
-    rank = rng.choice([1, 2, 3, 4])
+    p = _pc_prog(rng, nq=rng.choice([0, 1, 2]), sizes=(2, 2, 3) if lay else (1, 2, 2, 3))      # (blocks >= 2 x 2: Fortran order differs from C order)
+    rank = rng.choice([1, 2, 3, 4]) if not lay else rng.choice([2, 3, 4])
     types = [['L', rng.randrange(len(p.pool)), rng.choice([1, -1])] for _ in range(rank)]
     a = _pc_fresh(p, rng, types, None, dtype, fill=fill, layout=lay if lay in ('F', 'strided') else None)
     if lay in ('asfortran', 'real', 'imag'):
